@@ -27,6 +27,13 @@ Extracted (pure `ast`), located by ROLE, not by name or statement position:
     statements, closures turned into methods, keyword arguments, … regenerate the same text, while a data-dependent
     skip (`if msg.timestamp <= last: continue`, a filter on the receiver, `if isnan(value): continue` in the
     fan-out, …) changes `readsMessage` / `canSkip` and `C20_message_path_unconditional` no longer checks.
+  * the *channel name* of a request (`ComponentMetricRequest.get_channel_name`, `_component_metric_request.py`): the
+    model identifies a request with its channel, i.e. assumes the name is a function of the CURRENT values of the four
+    fields.  `channelName`: the fields (attribute paths of `self`) formatted into the returned string, in order, and
+    `pure` = the value is recomputed on every call: the class is a plain `@dataclass`, `get_channel_name` and every
+    `self.<method>()` / `@property` it returns through carry no other decorator (`cached_property`, `lru_cache`, `cache`, …),
+    nothing in the class stores into `self.*` / `__dict__` / `object.__setattr__` (memo attributes) and there is no
+    `__getattr__` / `__slots__` trickery.
 A category dispatch may be written as an `if`/`elif` chain (`==`, `is`, `in (…)`, `or`, either operand order,
 `!=` with the branches swapped), as `match … case ComponentCategory.X [| …]:`, or as a dict literal
 `{ComponentCategory.X: <table>, …}` (local or module level).  Anything that cannot be read this way makes the
@@ -38,7 +45,8 @@ import ast
 import pathlib
 
 NAME = "DataSourcing"
-SOURCES = ["src/frequenz/sdk/microgrid/_data_sourcing/microgrid_api_source.py"]
+SOURCES = ["src/frequenz/sdk/microgrid/_data_sourcing/microgrid_api_source.py",
+           "src/frequenz/sdk/microgrid/_data_sourcing/_component_metric_request.py"]
 
 FuncDef = (ast.FunctionDef, ast.AsyncFunctionDef)
 
@@ -50,6 +58,12 @@ class Unsupported(Exception):
 def _lean_str(s: str) -> str:
     if not all(c.isalnum() or c in "_ -" for c in s):
         raise Unsupported(f"unexpected characters in identifier {s!r}")
+    return '"' + s + '"'
+
+
+def _lean_str_dotted(s: str) -> str:
+    if not all(c.isalnum() or c in "_." for c in s):
+        raise Unsupported(f"unexpected characters in attribute path {s!r}")
     return '"' + s + '"'
 
 
@@ -760,6 +774,85 @@ def _message_path(mod: ast.Module) -> tuple[dict, dict]:
     return path, fan
 
 
+# ---- channel name of a request -----------------------------------------------------------------------------------
+def _channel_name(repo: pathlib.Path) -> tuple[list[str], bool]:
+    mod = ast.parse((repo / SOURCES[1]).read_text())
+    classes = [c for c in mod.body if isinstance(c, ast.ClassDef)
+               and any(isinstance(f, FuncDef) and f.name == "get_channel_name" for f in c.body)]
+    if len(classes) != 1:
+        raise Unsupported("expected one class with a get_channel_name method")
+    cls = classes[0]
+    methods = {f.name: f for f in cls.body if isinstance(f, FuncDef)}
+    pure = True
+    decos = [ast.unparse(d) for d in cls.decorator_list]
+    if not decos or any(d.split("(")[0].split(".")[-1] != "dataclass" for d in decos):
+        pure = False
+    if any(isinstance(st, ast.Assign) and any(isinstance(t, ast.Name) and t.id == "__slots__" for t in st.targets)
+           for st in cls.body) or any(n in methods for n in ("__getattr__", "__getattribute__", "__setattr__")):
+        pure = False
+    # nothing in the class memoises on the instance
+    for n in ast.walk(cls):
+        tg: list[ast.expr] = []
+        if isinstance(n, ast.Assign):
+            tg = list(n.targets)
+        elif isinstance(n, (ast.AugAssign, ast.AnnAssign)) and not (isinstance(n, ast.AnnAssign) and n.value is None):
+            tg = [n.target]
+        for t in tg:
+            for x in ast.walk(t):
+                if isinstance(x, ast.Attribute) and isinstance(x.value, ast.Name) and x.value.id == "self" \
+                        and isinstance(x.ctx, ast.Store):
+                    pure = False
+                if isinstance(x, ast.Subscript) and "__dict__" in ast.unparse(x.value):
+                    pure = False
+        if isinstance(n, ast.Call) and ast.unparse(n.func) in ("object.__setattr__", "setattr"):
+            pure = False
+    seen: set[str] = set()
+
+    def follow(name: str, as_property: bool) -> ast.expr:
+        nonlocal pure
+        if name in seen or name not in methods:
+            raise Unsupported(f"channel name: cannot follow {name}")
+        seen.add(name)
+        fn = methods[name]
+        ds = [ast.unparse(d) for d in fn.decorator_list]
+        if ds != (["property"] if as_property else []):
+            pure = False          # cached_property / lru_cache / cache / anything that may keep a value
+            if as_property and not any(d.split(".")[-1] in ("property", "cached_property") for d in ds):
+                raise Unsupported(f"channel name: {name} is not a property")
+        if len(fn.args.args) != 1 or fn.args.vararg or fn.args.kwarg or fn.args.kwonlyargs:
+            raise Unsupported(f"channel name: {name} takes arguments")
+        body = _strip_doc(fn.body)
+        if len(body) != 1 or not isinstance(body[0], ast.Return) or body[0].value is None:
+            raise Unsupported(f"channel name: {name} is not a single return")
+        v = body[0].value
+        if isinstance(v, ast.Call) and not v.args and not v.keywords and isinstance(v.func, ast.Attribute) \
+                and isinstance(v.func.value, ast.Name) and v.func.value.id == "self":
+            return follow(v.func.attr, False)
+        if isinstance(v, ast.Attribute) and isinstance(v.value, ast.Name) and v.value.id == "self" and v.attr in methods:
+            return follow(v.attr, True)
+        return v
+
+    v = follow("get_channel_name", False)
+    parts: list[ast.expr] = []
+    if isinstance(v, ast.JoinedStr):
+        parts = [x.value for x in v.values if isinstance(x, ast.FormattedValue)]
+        if any(x.format_spec is not None or x.conversion not in (-1, 115)
+               for x in v.values if isinstance(x, ast.FormattedValue)):
+            raise Unsupported("channel name: format specs")
+    elif isinstance(v, ast.Call) and isinstance(v.func, ast.Attribute) and v.func.attr == "format" \
+            and isinstance(v.func.value, ast.Constant) and not v.keywords:
+        parts = list(v.args)
+    else:
+        raise Unsupported("channel name: not an f-string / str.format of the fields")
+    fields: list[str] = []
+    for e in parts:
+        d = _dotted(e)
+        if d is None or not d.startswith("self."):
+            raise Unsupported(f"channel name: formatted value {ast.unparse(e)} is not a field of the request")
+        fields.append(d[len("self."):])
+    return fields, pure
+
+
 def _lean_name(table: str) -> str:
     core = table.strip("_")
     return "tbl_" + "".join(c if c.isalnum() else "_" for c in core)
@@ -770,6 +863,7 @@ def generate(repo: pathlib.Path) -> str:
     tables = _tables(mod)
     ext, chk = _dispatches(mod, tables)
     path, fan = _message_path(mod)
+    name_fields, name_pure = _channel_name(repo)
     out = [
         "/-! Metric tables and category dispatch of `MicrogridApiSource`. -/",
         "namespace Extracted.DataSourcing",
@@ -848,6 +942,18 @@ def generate(repo: pathlib.Path) -> str:
         f"{b(path['passesReceivedMessage'])}, {b(path['awaitsAfterScheduling'])}, {guards(path['guards'])}⟩",
         "",
         f"def fanoutBody : FanoutBody := ⟨{b(fan['onePerSender'])}, {fan['ts']}, {fan['value']}, {guards(fan['guards'])}⟩",
+        "",
+    ]
+    out += [
+        "/-- `ComponentMetricRequest.get_channel_name()`: the fields formatted into the name, in order, and whether the",
+        "    name is recomputed from the current field values on every call (no cache decorator, no memo attribute). -/",
+        "structure ChannelName where",
+        "  fields : List String",
+        "  pure : Bool",
+        "deriving DecidableEq, Repr",
+        "",
+        "def channelName : ChannelName := ⟨[" + ", ".join(_lean_str_dotted(f) for f in name_fields) + "], "
+        + ("true" if name_pure else "false") + "⟩",
         "",
     ]
     out.append("end Extracted.DataSourcing")
